@@ -12,7 +12,8 @@ open Gmars
 /-- the structural part of the simulator invariant that creation establishes -/
 def Created (c : Config) (s : Sim) : Prop :=
   s.mem.size = s.m.toNat ∧ 3 ≤ s.m.toNat ∧ 1 ≤ s.maxProcs.toNat ∧ 1 ≤ s.maxCycles.toNat ∧
-  1 ≤ s.readLimit.toNat ∧ 1 ≤ s.writeLimit.toNat ∧ s.m = c.coreSize ∧
+  1 ≤ s.readLimit.toNat ∧ 1 ≤ s.writeLimit.toNat ∧ s.readLimit.toNat ≤ s.m.toNat ∧
+  s.writeLimit.toNat ≤ s.m.toNat ∧ s.m = c.coreSize ∧
   s.warriors.size = 0 ∧ s.living = 0 ∧ s.cycleCount = 0 ∧ (∀ i ∈ s.mem, i.a = 0 ∧ i.b = 0)
 
 /-- A configuration is either refused, or the simulator it creates is sound: no third outcome
@@ -30,7 +31,8 @@ theorem validate_total (c : Config) :
     have h1 : (1 : UInt64).toNat = 1 := rfl
     repeat' (split at h; · simp at h)
     simp only [UInt64.lt_iff_toNat_lt, h3, h1, Nat.not_lt] at *
-    refine ⟨by omega, by omega, by omega, by omega, by omega, ?_⟩
+    refine ⟨by omega, by omega, by omega, clampLimit_pos _ _ (by omega) (by omega),
+      clampLimit_pos _ _ (by omega) (by omega), clampLimit_le _ _, clampLimit_le _ _, ?_⟩
     intro i hi
     simp [Array.mem_replicate] at hi
     rw [hi.2]; exact ⟨rfl, rfl⟩
